@@ -190,16 +190,26 @@ ExtraDemands(st, s, names) ==
     IF names = << >> THEN st
     ELSE ExtraDemands(SetVar(st, s, Head(names), DZero), s, Tail(names))
 
+(* Sector.GenerateAssetWeighting(weights, residual): WGT_<a> and DEM_<a> = F * WGT_<a> for every weighted asset a, *)
+(* the residual asset gets weight 1 - sum of the others                                                          *)
+RECURSIVE Weighted(_, _, _, _)
+Weighted(st, s, assets, resid) ==
+    IF assets = << >> THEN [st |-> st, resid |-> resid]
+    ELSE LET a == Head(assets)
+             st1 == SetVar(st, s, "WGT_" \o a, DAtom)
+             st2 == SetVar(st1, s, "DEM_" \o a, DSum(M1({<< s, "F" >>, << s, "WGT_" \o a >>}, 1)))
+         IN Weighted(st2, s, Tail(assets), MAdd(resid, {<< s, "WGT_" \o a >>}, -1))
+
 PostCtor(st, bp, s) ==
     LET d == Sec(bp, s)
         st1 == ExtraDemands(st, s, d.extra)
-        st2 == IF d.aw
-               THEN LET a == SetVar(st1, s, "WGT_DEP", DAtom)
-                        b == SetVar(a, s, "DEM_DEP", DSum(M1({<< s, "F" >>, << s, "WGT_DEP" >>}, 1)))
-                        c == SetVar(b, s, "WGT_MON", DSum(MAdd(M1({}, 1), {<< s, "WGT_DEP" >>}, -1)))
+        st2 == IF d.aw # << >>
+               THEN LET w == Weighted(st1, s, d.aw, M1({}, 1))
+                        c == SetVar(w.st, s, "WGT_MON", DSum(w.resid))
                     IN SetVar(c, s, "DEM_MON", DSum(M1({<< s, "F" >>, << s, "WGT_MON" >>}, 1)))
                ELSE st1
-    IN IF d.gift THEN SetVar(st2, s, "GIFT", DAtom) ELSE st2
+    \* a GIFT variable, and a variable XTRA built with AddTermToEquation from a product of two names
+    IN IF d.gift THEN SetVar(SetVar(st2, s, "GIFT", DAtom), s, "XTRA", DAtom) ELSE st2
 
 (* ExternalSector(model): XR, FX, GOLD; one rate / NET / F / LAG_F per currency *)
 RECURSIVE RegisterCurrencies(_, _, _)
